@@ -12,7 +12,10 @@ package session
 
 // client: lock discipline on every path (RUnlock only when read-held, Unlock only when
 // write-held, nothing held at return), and a client is stored for an address only when the address
-// is absent, under the write lock - so at most one client per address is ever stored.
+// is absent, under the write lock - so at most one client per address is ever stored. The
+// disconnect handler (which removes the pool entry of this address) is attached only to the
+// connection that has just been published in the pool: a connection that lost the race is closed
+// without a handler, so closing it cannot evict the winner's entry.
 //@ func (s *Session) client(info services.ServiceInfo) (result bus.Client, err error)
 //@   tags C19
 //@   requires !s.pollMutex.lockw && s.pollMutex.lockr == 0
@@ -20,6 +23,7 @@ package session
 //@   ensures[C19] !s.pollMutex.lockw && s.pollMutex.lockr == 0
 //@   ensures[C19] err == nil ==> result != nil
 //@   call NewClient#1: assert[C19] s.pollMutex.lockw && !has(s.poll, addr)
+//@   call AddHandler#1: assert[C19] at_unlock(has(s.poll, addr)) && at_unlock(s.poll[addr]) == c && !s.pollMutex.lockw
 //@   loop 1:
 //@     invariant !s.pollMutex.lockw && s.pollMutex.lockr == 1 && s.poll != nil
 
